@@ -17,6 +17,8 @@ pub enum Kind {
     Buzz,
     /// long slider 280 px, 1 span (ticks)
     SliderLong,
+    /// 140 px, 5 spans (500 ms per span at the default timing / velocity)
+    Slider5,
     /// spinner of the given length in ms
     Spinner(u32),
     /// hold note (type 128) of the given length in ms
@@ -52,6 +54,16 @@ pub enum DiffPreset {
     D2,
     /// HP5 CS4 OD7 AR8 SM1.4 TR2 (more ticks)
     D3,
+    /// HP5 CS4 OD8 AR9
+    D4,
+    /// HP6 CS3 OD8 AR9 SM1.0
+    D5,
+    /// HP4 CS5 OD5 AR7
+    D6,
+    /// HP3 CS4 OD3 AR3 SM2.0
+    D7,
+    /// HP8 CS4.5 OD9 AR9.5
+    D8,
 }
 
 #[derive(Copy, Clone, Debug, PartialEq, Eq, Hash)]
@@ -83,7 +95,14 @@ pub struct MapSpec {
     pub timing: Timing,
     pub first_start: i32,
     pub objs: Vec<Obj>,
+    /// a stream of `.0` circles, `.1` ms apart, appended 400 ms after the last object (dense, longer maps)
+    pub stream: (u32, u32),
+    /// shifts the starting position of the objects: (100 + 37 j mod 300, 100 + 23 j mod 200)
+    pub jitter: u8,
 }
+
+/// Gaps >= END_REL are measured from the previous object's *end*: gap - END_REL ms after it.
+pub const END_REL: u32 = 1_000_000;
 
 impl MapSpec {
     pub fn new(mode: u8, objs: Vec<Obj>) -> Self {
@@ -95,6 +114,8 @@ impl MapSpec {
             timing: Timing::T0,
             first_start: 1000,
             objs,
+            stream: (0, 0),
+            jitter: 0,
         }
     }
 
@@ -107,6 +128,11 @@ impl MapSpec {
             DiffPreset::D1 => (0.0, 0.0, 0.0, 0.0, 0.4, 0.5),
             DiffPreset::D2 => (10.0, 10.0, 10.0, 10.0, 3.6, 8.0),
             DiffPreset::D3 => (5.0, 4.0, 7.0, 8.0, 1.4, 2.0),
+            DiffPreset::D4 => (5.0, 4.0, 8.0, 9.0, 1.4, 1.0),
+            DiffPreset::D5 => (6.0, 3.0, 8.0, 9.0, 1.0, 1.0),
+            DiffPreset::D6 => (4.0, 5.0, 5.0, 7.0, 1.4, 1.0),
+            DiffPreset::D7 => (3.0, 4.0, 3.0, 3.0, 2.0, 1.0),
+            DiffPreset::D8 => (8.0, 4.5, 9.0, 9.5, 1.4, 1.0),
         };
         let cs = if self.mode == 3 { f64::from(self.keys) } else { cs };
         let _ = writeln!(
@@ -125,13 +151,30 @@ impl MapSpec {
         }
         s.push_str("\n[HitObjects]\n");
         let mut t = i64::from(self.first_start);
-        let (mut x, mut y) = (100i32, 100i32);
+        let mut prev_end = t;
+        // px per ms at the base timing (500 ms beats; T4 uses 6 ms beats) and velocity 1
+        let px_per_ms = 100.0 * sm / if self.timing == Timing::T4 { 6.0 } else { 500.0 };
+        let (mut x, mut y) = (100 + (37 * i32::from(self.jitter)) % 300, 100 + (23 * i32::from(self.jitter)) % 200);
         let mut col: u32 = 0;
         let keys = u32::from(self.keys.max(1));
         for (i, o) in self.objs.iter().enumerate() {
             if i > 0 {
-                t += i64::from(o.gap);
+                if o.gap >= END_REL {
+                    t = prev_end + i64::from(o.gap - END_REL);
+                } else {
+                    t += i64::from(o.gap);
+                }
             }
+            let slider_end = |spans: f64, px: f64| t + (spans * px / px_per_ms).round() as i64;
+            prev_end = match o.kind {
+                Kind::Circle => t,
+                Kind::Slider1 => slider_end(1.0, 70.0),
+                Kind::Slider2 => slider_end(2.0, 70.0),
+                Kind::Buzz => slider_end(4.0, 35.0),
+                Kind::SliderLong => slider_end(1.0, 280.0),
+                Kind::Slider5 => slider_end(5.0, 140.0),
+                Kind::Spinner(len) | Kind::Hold(len) => t + i64::from(len),
+            };
             match o.pos {
                 PosK::Same => {}
                 PosK::Near => {
@@ -168,12 +211,27 @@ impl MapSpec {
                 Kind::SliderLong => {
                     let _ = writeln!(s, "{x},{y},{t},2,{hs},B|{}:{}|{}:{y},1,280", x + 140, y + 40, x + 280);
                 }
+                Kind::Slider5 => {
+                    let _ = writeln!(s, "{x},{y},{t},2,{hs},L|{}:{y},5,140", x + 140);
+                }
                 Kind::Spinner(len) => {
                     let _ = writeln!(s, "256,192,{t},12,{hs},{}", t + i64::from(len));
                 }
                 Kind::Hold(len) => {
                     let _ = writeln!(s, "{x},{y},{t},128,{hs},{}:0:0:0:0:", t + i64::from(len));
                 }
+            }
+        }
+        if self.stream.0 > 0 {
+            let mut st = prev_end.max(t) + 400;
+            for i in 0..self.stream.0 {
+                let (sx, sy) = if self.mode == 3 {
+                    (((f64::from(i % keys) + 0.5) * 512.0 / f64::from(keys)).floor() as i32, 192)
+                } else {
+                    (40 + (i as i32 * 67) % 430, 40 + (i as i32 * 41) % 300)
+                };
+                let _ = writeln!(s, "{sx},{sy},{st},1,0");
+                st += i64::from(self.stream.1);
             }
         }
         s
